@@ -1,4 +1,5 @@
 import Proofs.C12Scalar
+import Proofs.C12Coll
 import Model.MarshalInterp
 /-!
 # C12 — encoded values are the CQL specification's encoding, byte for byte; conformant encodings decode
@@ -175,5 +176,81 @@ theorem C12_cex_smallint_uint16 :
   refine ⟨by decide, ?_⟩
   have : tcDec [255, 255] = -1 := by decide
   simp [specDec, this]
+
+/-! ## date and timestamp -/
+
+/-- FULL STATEMENT (does not hold): a time.Time / millisecond count bound to a date column is written as
+    2^31 + FLOOR(days since the epoch).  marshalDate divides with Go's truncating `/`: for an instant before 1970
+    that is not a midnight the result is the NEXT day (D5).  Proved part: every other instant whose day is in range. -/
+theorem C12_date_conforms_partial (p : Nat) (ts : Int)
+    (hfloor : ¬ (ts < 0 ∧ ts % 86400000 ≠ 0))
+    (hrange : fitsU 4 (ts / 86400000 + 2147483648) = true) :
+    marshalScalar .date (.int .int64 false ts) = .ok (specEnc p .date (.int (ts / 86400000))) := by
+  have h := encDateMillis_spec ts hfloor hrange
+  simp [marshalScalar, specEnc, hrange, h]
+
+theorem C12_date_time_conforms_partial (p : Nat) (sec nsec : Int) (hn : 0 ≤ nsec ∧ nsec < 1000000000)
+    (hz : timeIsZero sec nsec = false)
+    (h1 : fitsS 8 (sec * 1000) = true) (h2 : fitsS 8 (exactMillis sec nsec) = true)
+    (hfloor : ¬ (exactMillis sec nsec < 0 ∧ exactMillis sec nsec % 86400000 ≠ 0))
+    (hrange : fitsU 4 (sec / 86400 + 2147483648) = true) :
+    marshalScalar .date (.time sec nsec) = .ok (specEnc p .date (.int (sec / 86400))) := by
+  have hd := day_of_millis sec nsec hn
+  have h := encDateMillis_spec (exactMillis sec nsec) hfloor (by rw [hd]; exact hrange)
+  rw [hd] at h
+  simp [marshalScalar, specEnc, hz, hrange, timeMillis_exact sec nsec h1 h2, h]
+
+/-- the counterexample, kernel-checked, = the replay input `enc 4 date t -43200 0` (1969-12-31T12:00:00Z):
+    gocql writes day 2^31 (1970-01-01), the specification says 2^31 − 1 -/
+theorem C12_cex_date_floor :
+    marshalScalar .date (.time (-43200) 0) = .ok (some [128, 0, 0, 0]) ∧
+    specEnc 4 .date (.int ((-43200 : Int) / 86400)) = some [127, 255, 255, 255] := by
+  refine ⟨?_, by decide⟩
+  have : encDateMillis (timeMillis (-43200) 0) = [128, 0, 0, 0] := by decide
+  simp [marshalScalar, timeIsZero, zeroTimeSec, this]
+
+/-- timestamp: milliseconds since the epoch (floor), 8 bytes — for every non-zero time.Time that does not overflow -/
+theorem C12_timestamp_conforms_partial (p : Nat) (sec nsec : Int)
+    (hz : timeIsZero sec nsec = false)
+    (h1 : fitsS 8 (sec * 1000) = true) (h2 : fitsS 8 (exactMillis sec nsec) = true) :
+    marshalScalar .timestamp (.time sec nsec) = .ok (specEnc p .timestamp (.int (exactMillis sec nsec))) := by
+  simp [marshalScalar, specEnc, hz, h2, timeMillis_exact sec nsec h1 h2, encBigInt_eq]
+
+example : marshalScalar .timestamp (.time (-1) 999000000) = .ok (some [255, 255, 255, 255, 255, 255, 255, 255]) := by
+  have : encBigInt (timeMillis (-1) 999000000) = [255, 255, 255, 255, 255, 255, 255, 255] := by decide
+  simp [marshalScalar, timeIsZero, zeroTimeSec, this]
+
+/-! ## collections: the structural step (element theorems as hypotheses), protocol ≥ 3 -/
+
+open C12Coll in
+/-- a slice bound to a list column (the same code path serves sets, arrays and []interface{}): if every element is
+    marshalled as the specification says (`ElemOK`: nil exactly for null, else the element's spec bytes) then the
+    whole value is the specification's encoding — 4-byte count, 4-byte element lengths, −1 for null.  This is the
+    induction step for nesting: `ElemOK` of the elements is again an instance of the conformance statement. -/
+theorem C12_list_framing (p : Nat) (hp : p ≥ 3) (et : CqlTy) (vs : List GoVal) (cs : List CqlVal) (b : Bytes)
+    (hall : AllOK p et vs cs)
+    (h : marshal p (.list et) (.slice false vs) = .ok (some b)) :
+    specEnc p (.list et) (.list cs) = some b := by
+  apply marshalList_spec p hp et vs cs b hall
+  simpa [marshal] using h
+
+/-- FULL STATEMENT for protocol ≤ 2 does not hold for null elements (no null in the 2-byte framing): a zero-length
+    element is written -/
+theorem C12_cex_null_element_v2 :
+    marshal 2 (.list .int) (.slice false [.nilptr, .ptr (.int .int false 1)]) = .ok (some [0, 2, 0, 0, 0, 4, 0, 0, 0, 1]) ∧
+    specEnc 2 (.list .int) (.list [.null, .int 1]) = none := C12Coll.cex_null_element_v2
+
+/-- FULL STATEMENT (does not hold): a nil value inside a tuple is written as −1.  For a []interface{} source only
+    the UNTYPED nil is; a typed nil pointer is marshalled (→ nil) and written with length 0 (D8).
+    = replay input `enc 4 tuple 2 int text ifs 2 nilptr s 41` -/
+theorem C12_cex_tuple_typed_nil :
+    marshal 4 (.tuple [.int, .text]) (.ifaces [.nilptr, .str false [65]]) = .ok (some [0, 0, 0, 0, 0, 0, 0, 1, 65]) ∧
+    marshal 4 (.tuple [.int, .text]) (.ifaces [.nil, .str false [65]]) = .ok (some [255, 255, 255, 255, 0, 0, 0, 1, 65]) ∧
+    specEnc 4 (.tuple [.int, .text]) (.tuple [.null, .bytes [65]]) = some [255, 255, 255, 255, 0, 0, 0, 1, 65] := by
+  have h0 : encInt 0 = [0, 0, 0, 0] := by decide
+  have h1 : encInt (toS 32 1) = [0, 0, 0, 1] := by decide
+  have hm : encInt (-1) = [255, 255, 255, 255] := by decide
+  refine ⟨?_, ?_, by decide⟩ <;>
+    simp [marshal, wrapTuple, marshalTupleIfaces, tupleItem, marshalScalar, marshalVarcharColumn, h0, h1, hm]
 
 end C12
